@@ -151,7 +151,7 @@ type genURL struct {
 }
 
 var hostilePathBits = []string{"%0d%0a", "%0D%0AX-Injected:%201", "%00", "%20", "%2F", "%3F", "%23", "%25", "%e2%80%a8", "a%0d%0a%0d%0aGET%20/evil%20HTTP/1.0", "..", ".", "%2e%2e", ";p=1", "@", ":", "~", "!$&'()*+,=", "ü", "日本", "%FF%FE"}
-var hostileQueryBits = []string{"a=b", "x=%0d%0aInjected:%201", "q=%00", "r=%20s", "u=https%3A%2F%2Fe.example%2F", "a=1&b=2&a=3", "=", "&&", "%", "?", "/", "k=v%23w", "k=ü", "%0d%0a%0d%0aGET%20/evil%20HTTP/1.0%0d%0a"}
+var hostileQueryBits = []string{"redir=0", "redir=1", "redir=2", "redir=3", "redir=4", "redir=5", "redir=6", "redir=7", "a=b", "x=%0d%0aInjected:%201", "q=%00", "r=%20s", "u=https%3A%2F%2Fe.example%2F", "a=1&b=2&a=3", "=", "&&", "%", "?", "/", "k=v%23w", "k=ü", "%0d%0a%0d%0aGET%20/evil%20HTTP/1.0%0d%0a"}
 
 func genURLFor(r *rand.Rand, s *sim.Sim, tag string, n int) genURL {
 	hosts := []string{s.Host(2), s.Host(3), s.AltHost(4)}
@@ -248,8 +248,16 @@ func TestVerifC04(t *testing.T) {
 		return []byte("HTTP/1.1 200 OK\r\nContent-Type: application/jrd+json\r\n\r\n{\"links\":[{\"rel\":\"self\",\"type\":\"application/activity+json\",\"href\":\"https://" + host + "/wf-target\"}]}")
 	}
 	s.SetHandler(func(rq *sim.Request) sim.Plan {
-		if strings.Contains(string(rq.Raw), "/.well-known/webfinger") {
+		raw := string(rq.Raw)
+		if strings.Contains(raw, "/.well-known/webfinger") {
 			return sim.Respond(wfDoc(rq.Host))
+		}
+		// addresses carrying redir=<n> answer with a redirect whose Location is relative in one of several ways;
+		// whatever request follows is checked by the same grammar
+		if i := strings.Index(raw, "redir="); i >= 0 && !strings.Contains(raw, "/landed") {
+			locs := []string{"landed/page2", "../landed/up", "?landed=1&x=%0d%0a", "/landed/abs", "./landed/dot", "landed%20with%20space", "//" + rq.Host + "/landed/scheme-relative", "landed/#frag"}
+			k := int(raw[i+6]-'0') % len(locs)
+			return sim.Respond([]byte("HTTP/1.1 302 Found\r\nLocation: " + locs[k] + "\r\n\r\n"))
 		}
 		return sim.Respond(okBody)
 	})
@@ -357,7 +365,7 @@ func TestVerifC04(t *testing.T) {
 			}
 			if tls != 1 {
 				// the URL parsed in the generator's eyes; if Go refuses it, no request is fine too
-				if _, perr := url.Parse(fmt.Sprint(d["url"])); perr == nil && tls > 1 {
+				if _, perr := url.Parse(fmt.Sprint(d["url"])); perr == nil && tls > 1 && !strings.Contains(fmt.Sprint(d["url"]), "redir=") {
 					c.Violation("request:count", fmt.Sprintf("%d requests for one fetch of %v", tls, d["url"]), d)
 				}
 				if tls == 0 {
